@@ -116,8 +116,12 @@ func encTags(t models.Tags) []any {
 	return out
 }
 
+// curTM maps model time to real time for the family being run: whole seconds by default, nanoseconds for the
+// sub-second family (TLC integers are 32 bit: +-2.1 s around the epoch at nanosecond resolution).
+var curTM = rt.DefaultTime
+
 func tk(t time.Time) int {
-	k, ok := rt.DefaultTime.KOK(t.UTC())
+	k, ok := curTM.KOK(t.UTC())
 	if !ok {
 		return -99999
 	}
@@ -154,13 +158,13 @@ type sItem struct {
 func replayStream(items []sItem, recTime bool, zero int) (out []any, errStr string, closed int, recErr string) {
 	var buf bytes.Buffer
 	for _, it := range items {
-		p := edge.NewPointMessage(it.name, it.db, it.rp, models.Dimensions{}, models.Fields(it.fields), models.Tags(it.tags), rt.DefaultTime.T(it.t))
+		p := edge.NewPointMessage(it.name, it.db, it.rp, models.Dimensions{}, models.Fields(it.fields), models.Tags(it.tags), curTM.T(it.t))
 		if err := kapacitor.WritePointForRecording(&buf, p, "n"); err != nil {
 			recErr = "record:" + err.Error()
 		}
 	}
 	col := &streamCol{}
-	errC := kapacitor.ReplayStreamFromIO(&fixedClock{rt.DefaultTime.T(zero)}, io.NopCloser(&buf), col, recTime, "n")
+	errC := kapacitor.ReplayStreamFromIO(&fixedClock{curTM.T(zero)}, io.NopCloser(&buf), col, recTime, "n")
 	select {
 	case err := <-errC:
 		if err != nil {
@@ -203,9 +207,9 @@ func replayBatch(items []bItem, recTime bool, zero int) (out []any, errStr strin
 	for _, it := range items {
 		pts := make([]edge.BatchPointMessage, len(it.pts))
 		for i, p := range it.pts {
-			pts[i] = edge.NewBatchPointMessage(models.Fields(p.fields), models.Tags(p.tags), rt.DefaultTime.T(p.t))
+			pts[i] = edge.NewBatchPointMessage(models.Fields(p.fields), models.Tags(p.tags), curTM.T(p.t))
 		}
-		begin := edge.NewBeginBatchMessage(it.name, models.Tags(it.gtags), it.byName, rt.DefaultTime.T(it.tmax), len(pts))
+		begin := edge.NewBeginBatchMessage(it.name, models.Tags(it.gtags), it.byName, curTM.T(it.tmax), len(pts))
 		begin.SetDimensions(models.Dimensions{ByName: it.byName, TagNames: it.dims})
 		b := edge.NewBufferedBatchMessage(begin, pts, edge.NewEndBatchMessage())
 		if err := kapacitor.WriteBatchForRecording(&buf, b); err != nil {
@@ -213,7 +217,7 @@ func replayBatch(items []bItem, recTime bool, zero int) (out []any, errStr strin
 		}
 	}
 	col := &batchCol{}
-	errC := kapacitor.ReplayBatchFromIO(&fixedClock{rt.DefaultTime.T(zero)}, []io.ReadCloser{io.NopCloser(&buf)}, []kapacitor.BatchCollector{col}, recTime)
+	errC := kapacitor.ReplayBatchFromIO(&fixedClock{curTM.T(zero)}, []io.ReadCloser{io.NopCloser(&buf)}, []kapacitor.BatchCollector{col}, recTime)
 	select {
 	case err := <-errC:
 		if err != nil {
@@ -324,6 +328,38 @@ func Run(r *rt.Run) error {
 		}
 		emitS(items, fmt.Sprintf("sepoch/%d", ui))
 	}
+	// sub-second times: nanosecond resolution around the epoch of the model (the recording format keeps nanoseconds)
+	curTM = rt.TimeMap{Epoch: rt.DefaultTime.Epoch, Unit: time.Nanosecond}
+	for ni, ns := range [][]int{{0, 1, 2}, {1, 999, 1000, 1001}, {999999999, 1000000000, 1000000001}, {-1, 0, 1}, {-1000000001, -999999999, 5}, {123456789, 123456789, 1000000007}} {
+		var items []sItem
+		for _, n := range ns {
+			items = append(items, sItem{"db", "rp", "m", map[string]string{"host": "a"}, map[string]any{"f": int64(n)}, n})
+		}
+		for _, rec := range modes {
+			for _, z := range []int{0, 7, -900000000, 999999999} {
+				out, errS, closed, recErr := replayStream(items, rec, z)
+				t.Reset(nil)
+				t.Event("RecStream", rt.M{"recTime": rec, "zero": z, "items": encSItems(items), "recErr": recErr, "unit": "ns"})
+				t.Event("OutStream", rt.M{"items": out, "err": errS, "closed": closed})
+			}
+		}
+		t.Distinct(fmt.Sprintf("sns/%d", ni))
+	}
+	for bi, b := range []bItem{
+		{name: "m", gtags: map[string]string{"host": "a"}, dims: []string{"host"}, tmax: 1000000001, pts: []sItem{{tags: map[string]string{"host": "a"}, fields: map[string]any{"f": 1.5}, t: 1}, {tags: map[string]string{"host": "a"}, fields: map[string]any{"f": 2.5}, t: 999999999}, {tags: map[string]string{"host": "a"}, fields: map[string]any{"f": 3.5}, t: 1000000001}}},
+		{name: "m", gtags: map[string]string{"host": "a"}, dims: []string{"host"}, tmax: 7, pts: []sItem{{tags: map[string]string{"host": "a"}, fields: map[string]any{"f": 1.5}, t: -3}, {tags: map[string]string{"host": "a"}, fields: map[string]any{"f": 2.5}, t: 6}}},
+	} {
+		for _, rec := range modes {
+			for _, z := range []int{0, 7, -900000000} {
+				out, errS, closed := replayBatch([]bItem{b}, rec, z)
+				t.Reset(nil)
+				t.Event("RecBatch", rt.M{"recTime": rec, "zero": z, "items": encBItems([]bItem{b}), "unit": "ns"})
+				t.Event("OutBatch", rt.M{"items": out, "err": errS, "closed": closed})
+			}
+		}
+		t.Distinct(fmt.Sprintf("bns/%d", bi))
+	}
+	curTM = rt.DefaultTime
 	// large recordings: thousands of points whose three-line records (database, retention policy, line protocol) have
 	// every length, so that the reader's buffer boundaries fall at every position of a record
 	nLarge, szLarge := 2, 1500
